@@ -115,3 +115,212 @@ theorem sctpParameter_encoded (p : SctpParam) (hw : p.Wf) (rest : Bits) :
       by_cases c2 : pad32 p.value.length > 0 <;> simp [c1, c2, this, pairs, leftPairs]
 
 end Schc
+
+namespace Schc
+open Bits Spec
+
+theorem param_wire_len (p : SctpParam) : 32 ≤ p.wire.length := by
+  simp only [SctpParam.wire, List.length_append, ofNat_length]; omega
+
+/-- the parameter walk over RFC-encoded parameters: consumes them all, emits their fields in order -/
+theorem sctpParameters_encoded (ps : List SctpParam) (hw : ∀ p ∈ ps, p.Wf) (fuel : Nat) (hf : ps.length ≤ fuel) :
+    ∃ fs, sctpParameters fuel ⟨paramsWire ps, .left⟩ = .ok fs ∧ pairs fs = leftPairs (paramsFields ps) := by
+  induction ps generalizing fuel with
+  | nil =>
+    have hl : ¬ ((⟨paramsWire [], .left⟩ : ABuf).length > 0) := by simp [paramsWire, ABuf.length]
+    cases fuel with
+    | zero => exact ⟨[], by simp only [sctpParameters, hl, if_false]; rfl, rfl⟩
+    | succ f => exact ⟨[], by simp only [sctpParameters, hl, if_false]; rfl, rfl⟩
+  | cons p ps ih =>
+    cases fuel with
+    | zero => simp at hf
+    | succ f =>
+      have hb : paramsWire (p :: ps) = p.wire ++ paramsWire ps := by simp [paramsWire]
+      have hl : (⟨paramsWire (p :: ps), .left⟩ : ABuf).length > 0 := by
+        have := param_wire_len p
+        simp only [ABuf.length, hb, List.length_append]; omega
+      obtain ⟨fs1, h1, h2⟩ := sctpParameter_encoded p (hw p (by simp)) (paramsWire ps)
+      obtain ⟨fs2, h3, h4⟩ := ih (fun q hq => hw q (List.mem_cons_of_mem _ hq)) f (by simp at hf; omega)
+      have hfrom : (⟨p.wire ++ paramsWire ps, .left⟩ : ABuf).from_ p.wire.length = ⟨paramsWire ps, .left⟩ := by
+        simp [ABuf.from_]
+      rw [hb] at hl
+      refine ⟨fs1 ++ fs2, ?_, ?_⟩
+      · simp only [sctpParameters, hb, hl, if_true, bind, Except.bind, h1, hfrom, h3, pure, Except.pure]
+      · simp [pairs_append, h2, h4, paramsFields]
+
+/-- the gap-ack-block loop of the SACK chunk -/
+theorem sackBlocks_encoded (gaps : List (Nat × Nat)) (rest : Bits) :
+    (sackBlocks gaps.length ⟨rowsBits (gapRows gaps) ++ rest, .left⟩).2 = ⟨rest, .left⟩ ∧
+    pairs (sackBlocks gaps.length ⟨rowsBits (gapRows gaps) ++ rest, .left⟩).1 = leftPairs (rowsFields (gapRows gaps)) := by
+  induction gaps with
+  | nil => simp [sackBlocks, gapRows, rowsBits, rowsFields, leftPairs, pairs]
+  | cons g gs ih =>
+    have hb : rowsBits (gapRows (g :: gs)) ++ rest = Bits.ofNat 16 g.1 ++ (Bits.ofNat 16 g.2 ++ (rowsBits (gapRows gs) ++ rest)) := by
+      simp [gapRows, rowsBits, List.append_assoc]
+    generalize hR : (⟨rowsBits (gapRows (g :: gs)) ++ rest, .left⟩ : ABuf) = R
+    have hbits : R.bits = Bits.ofNat 16 g.1 ++ (Bits.ofNat 16 g.2 ++ (rowsBits (gapRows gs) ++ rest)) := by rw [← hR]; exact hb
+    have hside : R.side = .left := by rw [← hR]
+    have h1 : R.slice 0 16 = ⟨Bits.ofNat 16 g.1, .left⟩ := by
+      simp only [ABuf.slice, hside, hbits]; congr 1
+      all_goals first
+        | rfl
+        | (have := slice_head (Bits.ofNat 16 g.1) (Bits.ofNat 16 g.2 ++ (rowsBits (gapRows gs) ++ rest)); simpa using this)
+    have h2 : R.slice 16 32 = ⟨Bits.ofNat 16 g.2, .left⟩ := by
+      simp only [ABuf.slice, hside, hbits]; congr 1
+      all_goals first
+        | rfl
+        | exact slice_mid _ _ _ 16 32 (by simp) (by simp)
+    have h3 : R.from_ 32 = ⟨rowsBits (gapRows gs) ++ rest, .left⟩ := by
+      simp only [ABuf.from_, hside, hbits]; congr 1
+      all_goals first
+        | rfl
+        | (rw [← List.append_assoc]; exact List.drop_left' (by simp))
+    simp only [List.length_cons, sackBlocks, h1, h2, h3]
+    refine ⟨ih.1, ?_⟩
+    have e1 : Gen.SCTPF.CHUNK_SACK_GAP_ACK_BLOCK_START = "SCTP:Selective Ack Gap Ack BLock Start" := rfl
+    have e2 : Gen.SCTPF.CHUNK_SACK_GAP_ACK_BLOCK_END = "SCTP:Selective Ack Gap Ack BLock End" := rfl
+    simp only [pairs, List.map_cons, e1, e2] at ih ⊢
+    rw [ih.2]
+    simp [gapRows, rowsFields, leftPairs]
+
+/-- the duplicate-TSN loop of the SACK chunk -/
+theorem sackDups_encoded (dups : List Nat) (rest : Bits) :
+    pairs (sackDups dups.length ⟨rowsBits (dupRows dups) ++ rest, .left⟩) = leftPairs (rowsFields (dupRows dups)) := by
+  induction dups with
+  | nil => simp [sackDups, dupRows, rowsFields, leftPairs, pairs]
+  | cons d ds ih =>
+    have hb : rowsBits (dupRows (d :: ds)) ++ rest = Bits.ofNat 32 d ++ (rowsBits (dupRows ds) ++ rest) := by
+      simp [dupRows, rowsBits, List.append_assoc]
+    generalize hR : (⟨rowsBits (dupRows (d :: ds)) ++ rest, .left⟩ : ABuf) = R
+    have hbits : R.bits = Bits.ofNat 32 d ++ (rowsBits (dupRows ds) ++ rest) := by rw [← hR]; exact hb
+    have hside : R.side = .left := by rw [← hR]
+    have h1 : R.slice 0 32 = ⟨Bits.ofNat 32 d, .left⟩ := by
+      simp only [ABuf.slice, hside, hbits]; congr 1
+      all_goals first
+        | rfl
+        | (have := slice_head (Bits.ofNat 32 d) (rowsBits (dupRows ds) ++ rest); simpa using this)
+    have h3 : R.from_ 32 = ⟨rowsBits (dupRows ds) ++ rest, .left⟩ := by
+      simp only [ABuf.from_, hside, hbits]; congr 1
+      all_goals first
+        | rfl
+        | exact List.drop_left' (by simp)
+    have e1 : Gen.SCTPF.CHUNK_SACK_DUPLICATE_TSN = "SCTP:Selective Ack Duplicate TSN" := rfl
+    simp only [List.length_cons, sackDups, h1, h3, pairs, List.map_cons, e1] at ih ⊢
+    rw [ih]
+    simp [dupRows, rowsFields, leftPairs]
+
+/-! ### the RFC fields of a chunk value spell the value -/
+
+theorem rows_tile (rows : Rows) : (rowsFields rows).flatMap (·.2) = rowsBits rows := by
+  simp [rowsFields, rowsBits, List.flatMap_map]
+
+theorem param_tile (p : SctpParam) : p.fields.flatMap (·.2) = p.wire := by
+  unfold SctpParam.fields SctpParam.wire
+  have hv : (if p.value ≠ [] then [("SCTP:Parameter Value", p.value)] else []).flatMap (·.2) = p.value := by
+    by_cases c : p.value = [] <;> simp [c]
+  have hp : (if pad32 p.value.length > 0 then [("SCTP:Parameter Padding", Bits.zeros (pad32 p.value.length))] else []).flatMap (·.2)
+      = Bits.zeros (pad32 p.value.length) := by
+    by_cases c : pad32 p.value.length > 0
+    · simp [c]
+    · have : pad32 p.value.length = 0 := by omega
+      simp [this, Bits.zeros]
+  rw [List.flatMap_append, List.flatMap_append, hv, hp]
+  simp [List.flatMap_cons]
+
+theorem params_tile (ps : List SctpParam) : (paramsFields ps).flatMap (·.2) = paramsWire ps := by
+  induction ps with
+  | nil => rfl
+  | cons p ps ih =>
+    show (p.fields ++ paramsFields ps).flatMap (·.2) = p.wire ++ paramsWire ps
+    rw [List.flatMap_append, param_tile, ih]
+
+theorem value_tile (v : ChunkValue) : v.fields.flatMap (·.2) = v.wire := by
+  cases v with
+  | data tsn sid ssn ppid user =>
+    show (rowsFields _ ++ [("SCTP:Data Payload", user)]).flatMap (·.2) = rowsBits _ ++ user
+    rw [List.flatMap_append, rows_tile]; simp
+  | init ack tag rwnd os is tsn ps =>
+    show (rowsFields _ ++ paramsFields ps).flatMap (·.2) = rowsBits _ ++ paramsWire ps
+    rw [List.flatMap_append, rows_tile, params_tile]
+  | sack cum rwnd gaps dups =>
+    show (rowsFields _ ++ (rowsFields _ ++ rowsFields _)).flatMap (·.2) = rowsBits _ ++ (rowsBits _ ++ rowsBits _)
+    rw [List.flatMap_append, List.flatMap_append, rows_tile, rows_tile, rows_tile]
+  | params ps => exact params_tile ps
+  | shutdown cum => simp [ChunkValue.fields, ChunkValue.wire]
+  | none => rfl
+  | cookie c => simp [ChunkValue.fields, ChunkValue.wire]
+  | other w =>
+    show (if w ≠ [] then [("SCTP:Chunk Value", w)] else []).flatMap (·.2) = w
+    by_cases c : w = [] <;> simp [c]
+
+theorem sum_lengths_flatMap (fs : List (String × Bits)) : (fs.map (·.2.length)).sum = (fs.flatMap (·.2)).length := by
+  induction fs with
+  | nil => rfl
+  | cons f fs ih =>
+    simp only [List.map_cons, List.sum_cons, List.flatMap_cons, List.length_append]
+    rw [ih]
+
+theorem sumFieldBits_of_pairs (cf : List Field) (fs : List (String × Bits)) (h : pairs cf = leftPairs fs) :
+    sumFieldBits cf = (fs.flatMap (·.2)).length := by
+  rw [← sum_lengths_flatMap]
+  have : (pairs cf).map (·.2.length) = (leftPairs fs).map (·.2.length) := by rw [h]
+  simp only [pairs, leftPairs, List.map_map] at this
+  unfold sumFieldBits
+  have e1 : (cf.map (·.value.length)) = List.map ((fun x : String × ABuf => x.2.length) ∘ fun f : Field => (f.id, f.value)) cf := by
+    apply List.map_congr_left; intro f _; rfl
+  have e2 : (fs.map (·.2.length)) = List.map ((fun x : String × ABuf => x.2.length) ∘ fun p : String × Bits => (p.1, (⟨p.2, .left⟩ : ABuf))) fs := by
+    apply List.map_congr_left; intro f _; rfl
+  rw [e1, e2, this]
+
+theorem fieldValue_pairs (fs : List Field) (id : String) :
+    fieldValue fs id = match (pairs fs).find? (·.1 == id) with
+      | some p => p.2
+      | none => ABuf.empty .left := by
+  unfold fieldValue pairs
+  induction fs with
+  | nil => rfl
+  | cons f fs ih =>
+    simp only [List.find?_cons, List.map_cons]
+    by_cases c : (f.id == id) = true
+    · simp [c]
+    · simp only [c]; exact ih
+
+theorem parseFixed_append (l1 l2 : Layout) (b : ABuf) : parseFixed (l1 ++ l2) b = parseFixed l1 b ++ parseFixed l2 b := by
+  simp [parseFixed]
+
+def paramCount : ChunkValue → Nat
+  | .init _ _ _ _ _ _ ps => ps.length
+  | .params ps => ps.length
+  | _ => 0
+
+theorem ct_DATA : chunkTypeNo "DATA" = 0 := by decide
+theorem ct_INIT : chunkTypeNo "INIT" = 1 := by decide
+theorem ct_INIT_ACK : chunkTypeNo "INIT_ACK" = 2 := by decide
+theorem ct_SACK : chunkTypeNo "SACK" = 3 := by decide
+theorem ct_HEARTBEAT : chunkTypeNo "HEARTBEAT" = 4 := by decide
+theorem ct_HEARTBEAT_ACK : chunkTypeNo "HEARTBEAT_ACK" = 5 := by decide
+theorem ct_ABORT : chunkTypeNo "ABORT" = 6 := by decide
+theorem ct_SHUTDOWN : chunkTypeNo "SHUTDOWN" = 7 := by decide
+theorem ct_SHUTDOWN_ACK : chunkTypeNo "SHUTDOWN_ACK" = 8 := by decide
+theorem ct_ERROR : chunkTypeNo "ERROR" = 9 := by decide
+theorem ct_COOKIE_ECHO : chunkTypeNo "COOKIE_ECHO" = 10 := by decide
+theorem ct_COOKIE_ACK : chunkTypeNo "COOKIE_ACK" = 11 := by decide
+theorem ct_SHUTDOWN_COMPLETE : chunkTypeNo "SHUTDOWN_COMPLETE" = 14 := by decide
+
+/-- a fixed layout (as generated from sctp.py) laid over its RFC encoding at the start of a chunk value -/
+theorem fixed_rows (layout : Layout) (rows : Rows) (hl : layout = Spec.layoutFrom 0 (rowsWidths rows)) (rest : Bits) :
+    pairs (parseFixed layout ⟨rowsBits rows ++ rest, .left⟩) = leftPairs (rowsFields rows) := by
+  rw [hl]
+  have := parseFixed_rows rows [] rest
+  simpa using this
+
+theorem from_after_rows (rows : Rows) (rest : Bits) (n : Nat) (hn : n = (rowsBits rows).length) :
+    (⟨rowsBits rows ++ rest, .left⟩ : ABuf).from_ n = ⟨rest, .left⟩ := by
+  subst hn; simp [ABuf.from_]
+
+theorem rowsBits_length (rows : Rows) : (rowsBits rows).length = ((rowsWidths rows).map (·.2)).sum := by
+  induction rows with
+  | nil => rfl
+  | cons r rs ih => simp [rowsBits, rowsWidths] at ih ⊢; omega
+
+end Schc
